@@ -657,8 +657,13 @@ def run_impl(case):
             later = [plain_prefix(T, list(k2) if isinstance(k2, T.Key) else [k2]) for k2, _ in pairs[j + 1:]]
             # the slot kind (array element vs row) is judged on the RESULT: an earlier pair (e.g. SELF) may have
             # replaced the container the path runs through, and assigning an int to a ROW broadcasts (numpy)
+            # (when no EARLIER pair is comparable with this path the input's judgement is kept as well: the
+            # result then has the input's structure along the path — same rule as in `_set_laws`)
+            earlier = [plain_prefix(T, list(k2) if isinstance(k2, T.Key) else [k2]) for k2, _ in pairs[:j]]
+            untouched = all(e is not None and incomparable(pk, e) for e in earlier)
+            kk = k if isinstance(k, T.Key) else T.Key((k,))
             if all(l is not None and incomparable(pk, l) for l in later) and \
-                _elementwise(T, nv, k if isinstance(k, T.Key) else T.Key((k,)), v):
+                (_elementwise(T, nv, kk, v) or (untouched and _elementwise(T, view, kk, v))):
               got = read(nv, k if isinstance(k, T.Key) else T.Key((k,)))
               if got[0] != 'ok' or not same(got[1], v):
                 law(i, f'after copy_and_update, {k!r} does not read the updated value')
@@ -863,7 +868,15 @@ def _set_laws(T, w, law, i, op, view, nv, keys, value):
     return      # Literal / inner SKIP / negative indices: outside the get/set laws
   for j, (_, k, v, pk) in enumerate(sets):
     later = [n[3] for n in sets[j + 1:]]
-    if all(incomparable(pk, l) for l in later) and _elementwise(T, view, k, v):
+    # The slot kind (array ELEMENT vs ROW) is judged on the RESULT (wp-C18F, same flaw as f25add5 in the
+    # copy_and_update clause): an EARLIER pair of the same multi-key set may have replaced or created the
+    # container this path runs through (`SELF`, or a prefix of this path, set to a 2-D array), and assigning an
+    # int to a ROW broadcasts — numpy's rule, not a tree operation.  When no earlier pair is comparable with this
+    # path the result has the input's structure along it, and the input's judgement is kept as well, so the
+    # law is claimed at least as often as before on every input the old clause judged correctly.
+    untouched = all(incomparable(pk, n[3]) for n in sets[:j])
+    if all(incomparable(pk, l) for l in later) and \
+        (_elementwise(T, nv, k, v) or (untouched and _elementwise(T, view, k, v))):
       got = read(nv, k)
       if got[0] != 'ok' or not same(got[1], v):
         law(i, f'get after copy_and_set({k!r}) returned {got!r}, not the value set')
@@ -1489,6 +1502,20 @@ def make_arr_case(rng):
     elif k < 0.65:
       pre2, cell2 = rng.choice(arrs)
       ops.append({'op': 'update', 'root': tgt, 'pairs': [[p, v], [into(pre2, cell2), rng.choice(ints)]], 'asdict': False})
+      cur = {'res': len(ops) - 1}
+    elif k < 0.72:
+      # multi-key copying set whose FIRST pair replaces (SELF, the array's own path, a prefix of it) or creates the
+      # container the SECOND path runs through — by an array of another rank now and then — or is unrelated; the
+      # second pair then assigns into an element or a ROW of whatever is there in the result (wp-C18F)
+      first = rng.choice([['SELF'], list(pre), list(pre[:-1]) or ['SELF'], into(*rng.choice(arrs)), [{'s': 'fresh'}]])
+      v1 = rng.choice(avals + avals + ints + lvals[:2])
+      second = p if rng.random() < 0.8 else first + copy.deepcopy(rng.choice([[{'x': 0}], [{'x': 0}, {'x': 1}], [{'x': -1}]]))
+      pair = [[first or ['SELF'], v1], [second, rng.choice(ints) if rng.random() < 0.8 else v]]
+      if rng.random() < 0.25:
+        pair.reverse()
+      tup = g.add({'t': 'tuple', 'rs': [pair[0][1], pair[1][1]]})
+      ops.append({'op': 'set', 'root': tgt, 'keys': {'multi': [pair[0][0], pair[1][0]]}, 'value': tup, 'in_place': False,
+                  'bare': False, 'aslist': rng.random() < 0.2})
       cur = {'res': len(ops) - 1}
     elif k < 0.8:
       ops.append({'op': rng.choice(['get', 'getd']), 'root': tgt, 'keys': {'path': p}})
